@@ -172,6 +172,8 @@ class Exprs:
     def ev_BinOp(self, node, env):
         a = self.eval(node.left, env)
         b = self.eval(node.right, env)
+        if isinstance(node.op, (ast.Mod, ast.FloorDiv, ast.Div)) and self.ctx.stack:
+            self.ctx.visited.add((self.ctx.stack[-1][0], node.lineno, node.col_offset, 'division/format'))
         return self.binop(node.op, a, b, env, node)
 
     def ev_IfExp(self, node, env):
@@ -450,7 +452,7 @@ class Exprs:
                 el = v if el is None else self.join(el, v, env)
             return el if el is not None else TOP
         if isinstance(x, RegInfo):
-            return Tup([self.ctx.S.any_str(env, 1), RegDict(x.name)])
+            return Tup([self.ctx.S.any_str(env, 1), RegDict(x.name, x.query)])
         return TOP
 
 
